@@ -16,7 +16,19 @@ COMMON_ASSUMPTIONS = [
     'machine arithmetic is bit-precise everywhere; the only mathematical object is the saturating Horner ghost (cap 2^40, proved never to wrap)',
 ]
 
-PER_PROP_ASSUMPTIONS = {}
+PER_PROP_ASSUMPTIONS = {
+    'C01': ['handlers eventually return a terminal code (liveness side, see C15)', 'descriptor flags do not change within a line'],
+    'C02': ['descriptor flags do not change within a line', 'command names are not empty'],
+    'C07': ['strings hold bytes 0x01-0xFF except CR and are NUL-terminated inside data_size (domain of the statement)'],
+    'C09': ['descriptor flags do not change within a line'],
+    'C12': ['the composition of the per-step stutter facts into schedule independence (stuttering equivalence) is a pen-and-paper argument'],
+    'C15': ['fair environment for the liveness half: input exhausted, every write accepted, handlers return terminal codes, lock and unlock succeed; HOLD excluded',
+            'well-foundedness of the variant and "the variant bounds the number of BUSY calls" are the meta-argument'],
+    'C16': ['a mutex implementation whose lock/unlock return values mean what cat.h says'],
+    'C17': ['no thread interleaving is explored: sequential lock-rule obligations plus the classical theorem that lock-protected accesses are race free and atomic',
+            'a correct mutex implementation; memory-model effects are out of scope'],
+    'C19': ['implicit-write commands that own variables are excepted, as in the statement'],
+}
 
 
 def assumptions_for(prop):
